@@ -250,6 +250,13 @@ def attribute(evs, case, want_stacks=False):
             frame = st[-1]
             ops = bodies[frame[0]] if frame[0] < len(bodies) else []
         op = ops[frame[1]] if frame[1] < len(ops) else None
+        if op is not None and op.startswith("ri") and e.tag in (24, 26):
+            # `for v in rx`: every received value and the final Disconnected are records of this one operation; the drop
+            # of the Receiver ends it
+            if e.tag == 26:
+                frame[1] += 1
+            out.append(op)
+            continue
         if op is None or op_tag(op) != e.tag:
             out.append(None)
             continue
@@ -458,7 +465,7 @@ def oracle_sync2(evs, term, case):
                     # Full although space exists: allowed only if blocked senders are queued ahead (FIFO fairness); cannot be seen here
                     pass
             elif e.tag == 24:
-                ch = int(op[2:])
+                ch = int(op[2:])      # rc / tc / ri
                 c = chans[ch]
                 r = e.vals[0]
                 if r == 0:
